@@ -259,6 +259,9 @@ pub fn run(cfg: &Cfg, rep: &mut Report) {
         if h.contains(&Hop::AppendReentrant) && h.contains(&Hop::Unsub) {
           rep.count("histories_with_an_append_during_teardown", 1);
         }
+        if h.contains(&Hop::AppendToNested) && h.contains(&Hop::Unsub) {
+          rep.count("histories_with_a_child_added_to_a_nested_composite", 1);
+        }
         if late > 0 {
           rep.count("appends_after_unsubscribe", late as u64);
           rep.nontrivial.insert(hash64(&(threads, &h)));
